@@ -6,6 +6,7 @@ def check(ctx, rep):
     rxr.rx_3_4(ctx, rep)
     rxr.rx_5_6(ctx, rep)
     rxr.rx_5c(ctx, rep)
+    rxr.rx_5d(ctx, rep)
     from ..rules import eff as _eff6
     _eff6.eff_6(ctx, rep)        # no memo hands one mutable result to several callers
     rep.note('Not decided: codec behaviour.')
